@@ -227,8 +227,105 @@ def bounded(tier, seed, procs):
                     expected=outcome.describe(spec), actual=outcome.describe(real),
                     functions=[f"EvaluationMapper.{getattr(type(e), 'mapper_method', 'map_foreign')}"]))
     b.exhaustive = True
-    runs = [b, cse_once(tier), containers_and_float(tier)]
+    runs = [b, cse_once(tier), containers_and_float(tier), evaluator_hooks(tier)]
     return runs
+
+
+def evaluator_hooks(tier):
+    """User subclasses of the evaluators overriding one documented hook: the hook is used, and the result is the plain evaluator's."""
+    import pymbolic.primitives as p
+    from pymbolic.mapper.evaluator import CachedEvaluationMapper, CachedFloatEvaluationMapper, EvaluationMapper
+    b = BoundedRun("evaluator-hooks", rule="subclasses of CachedEvaluationMapper / CachedFloatEvaluationMapper overriding get_cache_key (a key with a generation counter for a re-bindable "
+                   "context; identity keys for lists), of EvaluationMapper overriding rec (counting), map_constant and map_variable, of both overriding map_common_subexpression_uncached: "
+                   "the override runs (call counts) and every value equals the reference denotation, also after the context was re-bound", bound="6 subclasses x 12 expressions x 3 environments",
+                   functions=["CachedEvaluationMapper.__call__", "CachedMapper.get_cache_key", "EvaluationMapper.rec", "CSECachingMapperMixin.map_common_subexpression"])
+    x, y, f = trees.X, trees.Y, trees.F
+    cse = p.CommonSubexpression(p.Product((x, y)))
+    exprs = [p.Sum((x, p.Product((y, 2)))), p.Power(p.Sum((x, 1)), 2), p.Quotient(x, p.Sum((y, 7))), p.If(p.Comparison(x, "<", y), x, y), p.Sum((cse, p.Power(cse, 2))), p.Call(f, (x, p.Sum((x, y)))),
+             p.Min((x, y, 3)), p.Sum((x, x, x)), p.Product((p.Sum((x, y)), p.Sum((x, y)))), p.FloorDiv(p.Sum((x, 10)), 3), p.Remainder(p.Sum((y, 10)), 4), p.LogicalAnd((p.Comparison(x, ">", 0), p.Comparison(y, ">", 0)))]
+    envs_ = [dict(x=2, y=5, f=lambda a, c: a * 7 + c), dict(x=-1, y=4, f=lambda a, c: a - c), dict(x=Fraction(1, 2), y=3, f=lambda a, c: a * c)]
+
+    class Rebindable(CachedEvaluationMapper):
+        generation = 0
+        key_calls = 0
+
+        def rebind(self, ctx):
+            self.context = ctx
+            self.generation += 1
+
+        def get_cache_key(self, expr):
+            self.key_calls += 1
+            return (self.generation, type(expr), expr)
+
+    class ListKeys(CachedEvaluationMapper):
+        def get_cache_key(self, expr):
+            return (type(expr), id(expr)) if isinstance(expr, list) else super().get_cache_key(expr)
+
+    class CountingRec(EvaluationMapper):
+        rec_calls = 0
+
+        def rec(self, expr, *a, **k):
+            self.rec_calls += 1
+            return super().rec(expr, *a, **k)
+
+    class Doubling(EvaluationMapper):
+        def map_constant(self, expr):
+            return 2 * expr
+
+    class UncachedHook(CachedEvaluationMapper):
+        hook_calls = 0
+
+        def map_common_subexpression_uncached(self, expr):
+            self.hook_calls += 1
+            return super().map_common_subexpression_uncached(expr)
+
+    class UncachedHookPlain(EvaluationMapper):
+        hook_calls = 0
+
+        def map_common_subexpression_uncached(self, expr):
+            self.hook_calls += 1
+            return super().map_common_subexpression_uncached(expr)
+
+    def fail(what, detail, want, got):
+        b.fail(Failure("evaluator-hooks", f"what={what} {detail}"[:300], dict(kind="ev-hook", what=what, detail=detail[:200]), expected=str(want)[:120], actual=str(got)[:150],
+                       functions=["CachedEvaluationMapper.__call__", "CachedMapper.get_cache_key"]))
+    m = Rebindable(envs_[0])
+    for ei, e in enumerate(exprs):
+        if "CommonSubexpression" in repr(e):
+            continue        # the wrapper cache of the mix-in is a second cache with a key of its own: outside what this subclass re-keys
+        for gi, env in enumerate(envs_ + envs_[:1]):
+            m.rebind(env)
+            want = outcome.run(lambda: den(e, env))
+            got = outcome.run(lambda: m(e))
+            b.case(("rebind", ei, gi), nontrivial=True)
+            if not outcome.equivalent(got, want, None, typed=False):
+                fail("rebindable-context", f"expr={e!r} env#{gi}", outcome.describe(want), outcome.describe(got))
+    b.case("key-hook-used")
+    if m.key_calls == 0:
+        fail("get_cache_key-not-called", "Rebindable", "> 0 calls", m.key_calls)
+    r = outcome.run(lambda: ListKeys(envs_[0])([x, p.Sum((y, 1))]))
+    b.case("list-keys")
+    if r != ("val", [2, 6]):
+        fail("identity-keys-for-lists", "[x, y + 1]", [2, 6], outcome.describe(r))
+    for e in exprs:
+        for env in envs_:
+            want = outcome.run(lambda: den(e, env))
+            cr = CountingRec(env)
+            got = outcome.run(lambda: cr(e))
+            b.case(("counting-rec", repr(e), env["x"]))
+            if not outcome.equivalent(got, want, None, typed=False) or (got[0] == "val" and isinstance(e, p.Expression) and cr.rec_calls == 0):
+                fail("rec-override", f"expr={e!r}", outcome.describe(want), f"{outcome.describe(got)} rec_calls={cr.rec_calls}")
+    r = outcome.run(lambda: Doubling(envs_[0])(p.Sum((x, 3, p.Product((2, y))))))
+    b.case("doubling")
+    if r != ("val", 2 + 6 + 4 * 5):
+        fail("map_constant-override", "x + 3 + 2*y", 28, outcome.describe(r))
+    for cls in (UncachedHook, UncachedHookPlain):
+        mm = cls(envs_[0])
+        r = outcome.run(lambda: mm(exprs[4]))
+        b.case(("uncached-hook", cls.__name__))
+        if r != ("val", den(exprs[4], envs_[0])) or mm.hook_calls != 1:
+            fail("map_common_subexpression_uncached-override", cls.__name__, "value, 1 hook call", f"{outcome.describe(r)} hook_calls={mm.hook_calls}")
+    return b
 
 
 def containers_and_float(tier):
